@@ -86,6 +86,8 @@ def run(ctx):
     ctx.do(rule_no_hidden_state, "C07.history-independence")
     from .pitfalls import rule_loops_not_cut_short
     ctx.do(rule_loops_not_cut_short, "C07.loops-complete")
+    from .pitfalls import rule_definite_assignment
+    ctx.do(rule_definite_assignment, "C07.definite-assignment")
 
 
 def rule_dispatch(ctx):
